@@ -19,9 +19,11 @@
      of cached messages ordered by UID; update_selected is a full resync (with
      one session nothing is ever expunged while hide_expunged is set, and the
      mod-sequence log only limits which messages are re-read);
-   * no mailbox is created/deleted/renamed during a program (C11's business);
-   * UIDVALIDITY, object ids, message bytes are not represented: a message
-     body is a content id, a date is a number of seconds.
+   * mailbox names are flat ids (0 = INBOX); hierarchy and LIST are C11's business;
+   * object ids and message bytes are not represented: a message body is a
+     content id, a date is a number of seconds; a fresh UIDVALIDITY is an oracle
+     value carried by the CREATE / RENAME INBOX command;
+   * what other connections do in between is a label [LExt] (Model.ext).
    Definitions only. *)
 From PV Require Import Base.Prelude Wire.SeqSet RefModel.Flags.
 Local Open Scope N_scope.
@@ -35,7 +37,8 @@ Record mbox := mkBox {
   b_msgs : list msg;   (* dict _messages in insertion order / uidlist order *)
   b_maxuid : N;        (* dict _max_uid ; maildir next_uid - 1 *)
   b_ro : bool;         (* MailboxData.readonly *)
-  b_perm : fset        (* MailboxData.permanent_flags *)
+  b_perm : fset;       (* MailboxData.permanent_flags *)
+  b_uidv : N           (* UIDVALIDITY (travels with the mailbox on RENAME) *)
 }.
 Definition boxes := list (N * mbox).   (* mailbox name (an id) -> mailbox *)
 
@@ -81,21 +84,50 @@ Record fattr := mkAttr {
                           from this item (BODY[] / BODY.PEEK[] / RFC822 / RFC822.SIZE) *)
 }.
 
+(* one message of an APPEND; [am_fail]: the backend raises while storing it
+   (oracle: e.g. RecursionError in the thread-key computation) *)
+Record amsg := mkAmsg { am_flags : fset; am_date : N; am_cid : N; am_fail : bool }.
+
+(* SEARCH keys (the flag / set / boolean part of SearchKey) *)
+Inductive skey :=
+| KAll
+| KFlag (f : flag) (expected : bool)     (* SEEN/UNSEEN ... KEYWORD/UNKEYWORD, RECENT/OLD *)
+| KNew
+| KSet (uid : bool) (ss : seqset)        (* <sequence set> / UID <set> *)
+| KNot (k : skey)
+| KOr (a b : skey).
+
 Inductive cmd :=
 | CSelect (box : N) (readonly : bool)                 (* SELECT / EXAMINE *)
-| CAppend (box : N) (flags : fset) (date : N) (cid : N)
+| CAppend (box : N) (msgs : list amsg)                (* APPEND, MULTIAPPEND *)
 | CStore (uid : bool) (ss : seqset) (op : flagop) (silent : bool) (flags : fset)
 | CExpunge (uidset : option seqset)                   (* Some = UID EXPUNGE *)
 | CCopy (uid : bool) (ss : seqset) (dest : N)
 | CMove (uid : bool) (ss : seqset) (dest : N)
 | CFetch (uid : bool) (ss : seqset) (attrs : list fattr)
-| CClose.
+| CClose
+| CNoop | CCheck
+| CStatus (box : N)                                   (* (MESSAGES RECENT UIDNEXT UIDVALIDITY UNSEEN) *)
+| CSearch (uid : bool) (keys : list skey)
+| CCreate (box : N) (uidv : N)                        (* uidv: the UIDVALIDITY drawn *)
+| CDelete (box : N)
+| CRename (from to : N) (uidv : N).                   (* uidv: of the new INBOX when from = INBOX *)
+
+(* what ANOTHER connection does between two commands of the session (it never
+   keeps a mailbox selected): SELECT box; UID STORE uids +-FLAGS.SILENT; deselect /
+   APPEND box / SELECT box; EXPUNGE; deselect *)
+Inductive ext :=
+| XStore (box : N) (uids : list N) (op : flagop) (flags : fset)
+| XAppend (box : N) (flags : fset) (date cid : N)
+| XExpunge (box : N).
+Inductive label := LCmd (c : cmd) | LExt (e : ext).
 
 (* -------------------------------------------------------------- outputs *)
 Inductive cond := OK | NO | BAD | BYE.
 Inductive code :=
 | CNone | CReadOnly | CReadWrite | CTryCreate | CNonexistent | CExpungeIssued
-| CAppendUid (u : N)
+| CAlreadyExists | CCannot | CServerBug
+| CAppendUid (us : list N)
 | CCopyUid (src dst : list N).
 Record fitem := mkItem {
   fi_seq : N; fi_uid : option N; fi_flags : option fset;
@@ -105,7 +137,10 @@ Inductive untagged :=
 | UExpunge (n : N) | UExists (n : N) | URecent (n : N)
 | UFetch (i : fitem)
 | UMoved (c : code)                                   (* * OK [COPYUID ..] Moved. *)
-| USelect (exists_ recent uidnext : N) (first_unseen : option N) (permflags : fset).
+| USelect (exists_ recent uidnext : N) (first_unseen : option N) (permflags : fset)
+| UStatus (box messages recent uidnext uidv unseen : N)
+| USearch (ids : list N)
+| UBye.                                               (* * BYE Selected mailbox no longer exists. *)
 Record out := mkOut { o_cond : cond; o_code : code; o_untagged : list untagged }.
 
 (* --------------------------------------------------- addressing messages *)
@@ -132,7 +167,7 @@ Definition find_msg (u : N) (l : list msg) : option msg :=
 Definition set_flags (m : msg) (fl : fset) : msg :=
   mkMsg (m_uid m) fl (m_date m) (m_cid m) (m_recent m).
 Definition set_msgs (b : mbox) (l : list msg) : mbox :=
-  mkBox l (b_maxuid b) (b_ro b) (b_perm b).
+  mkBox l (b_maxuid b) (b_ro b) (b_perm b) (b_uidv b).
 
 (* MailboxData.get: the live message, or an expunged copy of the cached one *)
 Definition mb_get (b : mbox) (cached : msg) : msg * bool :=
@@ -156,7 +191,7 @@ Definition mb_delete (b : mbox) (dead : list N) : mbox :=
 (* append of a new message object with the next UID *)
 Definition mb_add (b : mbox) (fl : fset) (date cid : N) (recent : bool) : mbox * N :=
   let u := (b_maxuid b + 1)%N in
-  (mkBox (b_msgs b ++ [mkMsg u fl date cid recent]) u (b_ro b) (b_perm b), u).
+  (mkBox (b_msgs b ++ [mkMsg u fl date cid recent]) u (b_ro b) (b_perm b) (b_uidv b), u).
 
 Definition add_recent (u : N) (l : list N) : list N := if memN u l then l else l ++ [u].
 
@@ -210,6 +245,12 @@ Definition add_untagged (acc : list untagged) (u : untagged) : list untagged :=
   | _ => acc ++ [u]
   end.
 
+(* the untagged data of fork() joins the command's own: FETCH data of the same
+   message merge, except after EXPUNGE responses (the numbering has changed) *)
+Definition is_expunge (u : untagged) : bool := match u with UExpunge _ => true | _ => false end.
+Definition assemble (items cmp : list untagged) : list untagged :=
+  if existsb is_expunge cmp then items ++ cmp else fold_left add_untagged cmp items.
+
 (* update_selected on mailbox [b] followed by fork(command):
    [s] is the selection as it was when the command started (= the last fork),
    [rec] the session's \Recent set as the command left it *)
@@ -219,10 +260,51 @@ Definition finish (b : mbox) (s : sel) (rec : list N) (silenced : list (N * fset
   let expunged u := memN u (uids_of (s_view s)) && negb (memN u (uids_of v1)) in
   let rec1 := filter (fun u => negb (expunged u)) rec in       (* session_flags.remove *)
   (mkSel (s_box s) (s_ro s) (s_perm s) v1 rec1,
-   fold_left add_untagged (compare (s_view s) (s_recent s) v1 rec1 silenced with_uid) items).
+   assemble items (compare (s_view s) (s_recent s) v1 rec1 silenced with_uid)).
+
+(* the same when the command set hide_expunged (FETCH / STORE / SEARCH by sequence
+   number): messages that are gone stay in the view, in UID order, until the next
+   command that does not hide; no EXPUNGE is sent for them and their session flags
+   are kept.  (With nothing gone this is [finish].) *)
+Fixpoint insert_by_uid (m : msg) (l : list msg) : list msg :=
+  match l with
+  | [] => [m]
+  | x :: r => if (m_uid m <? m_uid x)%N then m :: l else x :: insert_by_uid m r
+  end.
+Definition keep_pending (told now : list msg) : list msg :=
+  fold_left (fun acc m => insert_by_uid m acc)
+            (filter (fun m => negb (memN (m_uid m) (uids_of now))) told) now.
+Definition finish_h (hide : bool) (b : mbox) (s : sel) (rec : list N)
+           (silenced : list (N * fset)) (with_uid : bool) (items : list untagged)
+  : sel * list untagged :=
+  if hide then
+    let v1 := keep_pending (s_view s) (b_msgs b) in
+    (mkSel (s_box s) (s_ro s) (s_perm s) v1 rec,
+     assemble items (compare (s_view s) (s_recent s) v1 rec silenced with_uid))
+  else finish b s rec silenced with_uid items.
+
+(* the session's \Recent set after that synchronisation (responses of STORE and
+   FETCH are written afterwards and show it) *)
+Definition post_recent (hide : bool) (b : mbox) (s : sel) (rec : list N) : list N :=
+  if hide then rec
+  else filter (fun u => negb (memN u (uids_of (s_view s)) && negb (memN u (uids_of (b_msgs b))))) rec.
 
 Definition set_sel (st : state) (bs : boxes) (s : option sel) : state :=
   mkState (st_bk st) bs s.
+
+(* _load_updates(selected, None) after a command that is not about the selected
+   mailbox: resynchronise; if the selected mailbox is gone (set_deleted) the fork
+   yields BYE and the connection ends (modelled as: nothing selected) *)
+Definition load_updates (bs : boxes) (sl : option sel) (items : list untagged)
+  : option sel * list untagged :=
+  match sl with
+  | None => (None, items)
+  | Some s =>
+    match lookup (s_box s) bs with
+    | None => (None, items ++ [UBye])
+    | Some b => let '(s', un) := finish b s (s_recent s) [] false items in (Some s', un)
+    end
+  end.
 Definition reply (st : state) (c : cond) (k : code) : state * out := (st, mkOut c k []).
 
 (* ------------------------------------------------------------- commands *)
@@ -262,25 +344,44 @@ Definition dest_selected (st : state) (box : N) : bool :=
   | None => false
   end.
 
-(* do_append + append_messages, one message (AppendMessage drops \Recent) *)
-Definition do_append (st : state) (box : N) (fl : fset) (date cid : N) : state * out :=
+(* the message-by-message loop of append_messages: (mailbox, session \Recent set,
+   UIDs stored so far, did a message make the backend raise?) *)
+Fixpoint append_loop (bk : backend) (ds : bool) (b : mbox) (rec : list N) (msgs : list amsg)
+  : mbox * list N * list N * bool :=
+  match msgs with
+  | [] => (b, rec, [], false)
+  | a :: r =>
+    if am_fail a then (b, rec, [], true) else
+    let fl := storable bk (b_perm b) (diff (am_flags a) [FRecent]) in   (* AppendMessage drops \Recent *)
+    let '(b1, u) := mb_add b fl (am_date a) (am_cid a) (negb ds) in
+    let rec1 := if ds then add_recent u rec else rec in
+    let '(b2, rec2, us, failed) := append_loop bk ds b1 rec1 r in
+    (b2, rec2, u :: us, failed)
+  end.
+
+(* do_append + append_messages (MULTIAPPEND is all-or-nothing: when a message makes
+   the backend raise, the ones already stored are deleted again — their UIDs stay
+   used — and the exception ends the connection with BYE [SERVERBUG]) *)
+Definition do_append (st : state) (box : N) (msgs : list amsg) : state * out :=
   match lookup box (st_boxes st) with
   | None => reply st NO CTryCreate
   | Some b =>
     if b_ro b then reply st NO CReadOnly else
     let ds := dest_selected st box in
-    let fl' := storable (st_bk st) (b_perm b) (diff fl [FRecent]) in
-    let '(b', u) := mb_add b fl' date cid (negb ds) in
+    let rec0 := match st_sel st with Some s => s_recent s | None => [] end in
+    let '(b', rec, us, failed) := append_loop (st_bk st) ds b rec0 msgs in
+    if failed then
+      (set_sel st (set_box box (mb_delete b' us) (st_boxes st)) None, mkOut BYE CServerBug [])
+    else
     let bs' := set_box box b' (st_boxes st) in
     match st_sel st with
-    | None => (set_sel st bs' None, mkOut OK (CAppendUid u) [])
+    | None => (set_sel st bs' None, mkOut OK (CAppendUid us) [])
     | Some s =>
-      let rec := if ds then add_recent u (s_recent s) else s_recent s in
       match lookup (s_box s) bs' with                       (* _load_updates *)
-      | None => (set_sel st bs' (Some s), mkOut BYE CNone [])
+      | None => (set_sel st bs' None, mkOut OK (CAppendUid us) [UBye])
       | Some sb =>
         let '(s', un) := finish sb s rec [] false [] in
-        (set_sel st bs' (Some s'), mkOut OK (CAppendUid u) un)
+        (set_sel st bs' (Some s'), mkOut OK (CAppendUid us) un)
       end
     end
   end.
@@ -296,7 +397,8 @@ Fixpoint update_loop (bk : backend) (b : mbox) (targets : list (N * msg)) (fs : 
     (b2, (q, m, ex) :: res)
   end.
 
-(* SelectedMailbox.silence *)
+(* SelectedMailbox.silence (reads the flags the session has synchronised,
+   _flags_key_map, not the possibly newer cached message) *)
 Definition silence (targets : list (N * msg)) (pf : fset) (op : flagop) : list (N * fset) :=
   flat_map (fun qc => let c := snd qc in
                       let upd := op_apply op (m_flags c) pf in
@@ -319,11 +421,12 @@ Definition do_store (st : state) (uid : bool) (ss : seqset) (op : flagop) (silen
     | None => reply st NO CNonexistent
     | Some b =>
       let '(b', res) := update_loop (st_bk st) b targets pf op in
+      let rec1 := post_recent (negb uid) b' s (s_recent s) in
       let items :=
         flat_map (fun x => let '(q, m, ex) := x in
                            if negb ex && silent then []
-                           else [flags_item q m (s_recent s) uid]) res in
-      let '(s', un) := finish b' s (s_recent s) silenced uid items in
+                           else [flags_item q m rec1 uid]) res in
+      let '(s', un) := finish_h (negb uid) b' s (s_recent s) silenced uid items in
       (set_sel st (set_box (s_box s) b' (st_boxes st)) (Some s'),
        mkOut OK (if any_expunged res then CExpungeIssued else CNone) un)
     end
@@ -365,7 +468,7 @@ Definition do_close (st : state) : state * out :=
     let st0 := set_sel st (st_boxes st) None in
     if s_ro s then reply st0 OK CNone else
     match lookup (s_box s) (st_boxes st) with
-    | None => reply st0 NO CNonexistent
+    | None => reply st0 OK CNone                      (* nothing left to expunge *)
     | Some b =>
       let dead := find_deleted b (expunge_targets (s_view s) None) (s_recent s) in
       reply (set_sel st (set_box (s_box s) (mb_delete b dead) (st_boxes st)) None) OK CNone
@@ -374,25 +477,27 @@ Definition do_close (st : state) : state * out :=
 
 (* the per-message loop of copy_messages (move = false) / move_messages (true):
    MailboxData.copy / .move, then add_recent and the (source, dest) UID pair *)
-Fixpoint copy_loop (move : bool) (src dst : N) (ds : bool) (bs : boxes) (rec : list N)
+Fixpoint copy_loop (bk : backend) (move : bool) (src dst : N) (ds : bool) (bs : boxes) (rec : list N)
          (pairs : list (N * msg)) : boxes * list N * list (N * N) :=
   match pairs with
   | [] => (bs, rec, [])
   | (_, c) :: r =>
     match lookup src bs with
-    | None => copy_loop move src dst ds bs rec r
+    | None => copy_loop bk move src dst ds bs rec r
     | Some sb =>
       match find_msg (m_uid c) (b_msgs sb) with
-      | None => copy_loop move src dst ds bs rec r            (* copy()/move() -> None *)
+      | None => copy_loop bk move src dst ds bs rec r            (* copy()/move() -> None *)
       | Some m =>
         let bs1 := if move then set_box src (mb_delete sb [m_uid c]) bs else bs in
         match lookup dst bs1 with
-        | None => copy_loop move src dst ds bs1 rec r
+        | None => copy_loop bk move src dst ds bs1 rec r
         | Some db =>
-          let '(db', du) := mb_add db (m_flags m) (m_date m) (m_cid m) (negb ds) in
+          (* maildir: flags are rewritten with the destination's keyword table *)
+          let '(db', du) := mb_add db (storable bk (b_perm db) (m_flags m)) (m_date m) (m_cid m)
+                                   (negb ds) in
           let bs2 := set_box dst db' bs1 in
           let rec2 := if ds then add_recent du rec else rec in
-          let '(bs3, rec3, us) := copy_loop move src dst ds bs2 rec2 r in
+          let '(bs3, rec3, us) := copy_loop bk move src dst ds bs2 rec2 r in
           (bs3, rec3, (m_uid c, du) :: us)
         end
       end
@@ -415,7 +520,7 @@ Definition do_copy (st : state) (uid : bool) (ss : seqset) (dest : N) : state * 
         if b_ro d then reply st NO CReadOnly else
         let ds := dest_selected st dest in
         let '(bs', rec, us) :=
-          copy_loop false (s_box s) dest ds (st_boxes st) (s_recent s)
+          copy_loop (st_bk st) false (s_box s) dest ds (st_boxes st) (s_recent s)
                     (get_all (s_view s) uid ss) in
         match lookup (s_box s) bs' with
         | None => reply st NO CNonexistent
@@ -442,7 +547,7 @@ Definition do_move (st : state) (uid : bool) (ss : seqset) (dest : N) : state * 
         if b_ro d then reply st NO CReadOnly else
         let ds := dest_selected st dest in
         let '(bs', rec, us) :=
-          copy_loop true (s_box s) dest ds (st_boxes st) (s_recent s)
+          copy_loop (st_bk st) true (s_box s) dest ds (st_boxes st) (s_recent s)
                     (get_all (s_view s) uid ss) in
         match lookup (s_box s) bs' with
         | None => reply st NO CNonexistent
@@ -453,6 +558,9 @@ Definition do_move (st : state) (uid : bool) (ss : seqset) (dest : N) : state * 
       end
     end
   end.
+
+(* harness convention: the content id of "no content" (an empty body, size 0) *)
+Definition NO_CONTENT : N := 5000000.
 
 (* FetchAttribute.set_seen *)
 Definition attr_set_seen (a : fattr) : bool :=
@@ -486,29 +594,173 @@ Definition do_fetch (st : state) (uid : bool) (ss : seqset) (attrs : list fattr)
         if set_seen then update_loop (st_bk st) b targets [FSeen] OpAdd
         else (b, get_loop b targets) in
       let items :=
-        map (fun x => let '(q, m, _) := x in
+        map (fun x => let '(q, m, ex) := x in
                UFetch (mkItem q
                  (if uid || has_attr AUid attrs then Some (m_uid m) else None)
                  (if has_attr AFlags attrs
-                  then Some (with_recent (m_flags m) (memN (m_uid m) (s_recent s))) else None)
+                  then Some (with_recent (m_flags m)
+                                         (memN (m_uid m) (post_recent (negb uid) b' s (s_recent s))))
+                  else None)
                  (if has_attr AInternalDate attrs then Some (m_date m) else None)
-                 (if existsb fa_content attrs then Some (m_cid m) else None))) res in
-      let '(s', un) := finish b' s (s_recent s) [] uid items in
+                 (if existsb fa_content attrs
+                  then Some (match st_bk st, ex with
+                             | Maildir, true => NO_CONTENT   (* the file is gone *)
+                             | _, _ => m_cid m               (* dict: the orphan keeps its content *)
+                             end)
+                  else None))) res in
+      let '(s', un) := finish_h (negb uid) b' s (s_recent s) [] uid items in
       (set_sel st (set_box (s_box s) b' (st_boxes st)) (Some s'),
        mkOut OK (if any_expunged res then CExpungeIssued else CNone) un)
+    end
+  end.
+
+(* do_noop / do_check + check_mailbox *)
+Definition do_noop (st : state) (check : bool) : state * out :=
+  match st_sel st with
+  | None => if check then reply st BAD CNone else reply st OK CNone
+  | Some s =>
+    match lookup (s_box s) (st_boxes st) with
+    | None => reply st NO CNonexistent
+    | Some b =>
+      let '(s', un) := finish b s (s_recent s) [] false [] in
+      (set_sel st (st_boxes st) (Some s'), mkOut OK CNone un)
+    end
+  end.
+
+Definition count_unseen (l : list msg) : N :=
+  N.of_nat (length (filter (fun m => negb (mem FSeen (m_flags m))) l)).
+
+(* do_status + get_mailbox: the snapshot, then _load_updates; RECENT is the session's
+   own count when the mailbox is the selected one *)
+Definition do_status (st : state) (box : N) : state * out :=
+  match lookup box (st_boxes st) with
+  | None => reply st NO CNonexistent
+  | Some b =>
+    let line r := UStatus box (v_exists (b_msgs b)) r (b_maxuid b + 1) (b_uidv b)
+                          (count_unseen (b_msgs b)) in
+    match st_sel st with
+    | None => (st, mkOut OK CNone [line (count_recent (b_msgs b))])
+    | Some s =>
+      match lookup (s_box s) (st_boxes st) with
+      | None => (set_sel st (st_boxes st) None,
+                 mkOut OK CNone [line (count_recent (b_msgs b)); UBye])
+      | Some sb =>
+        let '(s', un) := finish sb s (s_recent s) [] false [] in
+        let r := if (s_box s =? box)%N then N.of_nat (length (s_recent s'))
+                 else count_recent (b_msgs b) in
+        (set_sel st (st_boxes st) (Some s'), mkOut OK CNone (line r :: un))
+      end
+    end
+  end.
+
+(* SearchCriteria.matches for the modelled keys *)
+Fixpoint key_matches (v : list msg) (rec : list N) (q : N) (m : msg) (k : skey) : bool :=
+  let fl := with_recent (m_flags m) (memN (m_uid m) rec) in
+  match k with
+  | KAll => true
+  | KFlag f e => Bool.eqb (mem f fl) e
+  | KNew => mem FRecent fl && negb (mem FSeen fl)
+  | KSet true ss => memN (m_uid m) (seq_iter (v_maxuid v) ss)
+  | KSet false ss => memN q (seq_iter (v_exists v) ss)
+  | KNot a => negb (key_matches v rec q m a)
+  | KOr a b => key_matches v rec q m a || key_matches v rec q m b
+  end.
+
+(* do_search + search_mailbox *)
+Definition do_search (st : state) (uid : bool) (keys : list skey) : state * out :=
+  match st_sel st with
+  | None => reply st BAD CNone
+  | Some s =>
+    match lookup (s_box s) (st_boxes st) with
+    | None => reply st NO CNonexistent
+    | Some b =>
+      let res := filter (fun x => let '(q, m, _) := x in
+                                  forallb (key_matches (s_view s) (s_recent s) q m) keys)
+                        (get_loop b (enumerate (s_view s))) in
+      let ids := map (fun x => let '(q, m, _) := x in if uid then m_uid m else q) res in
+      let '(s', un) := finish_h (negb uid) b s (s_recent s) [] uid [USearch ids] in
+      (set_sel st (st_boxes st) (Some s'),
+       mkOut OK (if any_expunged res then CExpungeIssued else CNone) un)
+    end
+  end.
+
+(* a mailbox as the backend creates it *)
+Definition sys5 : fset := [FSeen; FAnswered; FFlagged; FDeleted; FDraft].
+Definition new_box (bk : backend) (uidv : N) : mbox :=
+  mkBox [] (match bk with Dict => 100 | Maildir => 0 end) false sys5 uidv.
+Definition del_box (n : N) (bs : boxes) : boxes := filter (fun nb => negb (fst nb =? n)%N) bs.
+Definition INBOX : N := 0.
+(* a selection whose mailbox no longer has a name (selected.lookup does not resolve to
+   selected.mailbox_id any more): INBOX was renamed while selected *)
+Definition GONE : N := 4294967295.
+Definition unname (sl : option sel) : option sel :=
+  match sl with
+  | Some s => if (s_box s =? INBOX)%N
+              then Some (mkSel GONE (s_ro s) (s_perm s) (s_view s) (s_recent s)) else Some s
+  | None => None
+  end.
+Definition inbox_selected (sl : option sel) : bool :=
+  match sl with Some s => (s_box s =? INBOX)%N | None => false end.
+
+(* the tail of CREATE / DELETE / RENAME: _load_updates(selected, None) *)
+Definition after_names (st : state) (bs : boxes) : state * out :=
+  let '(sl, un) := load_updates bs (st_sel st) [] in
+  (set_sel st bs sl, mkOut OK CNone un).
+
+Definition do_create (st : state) (box uidv : N) : state * out :=
+  if (box =? INBOX)%N then reply st NO CNone else
+  match lookup box (st_boxes st) with
+  | Some _ => reply st NO CAlreadyExists
+  | None => after_names st (st_boxes st ++ [(box, new_box (st_bk st) uidv)])
+  end.
+
+Definition do_delete (st : state) (box : N) : state * out :=
+  if (box =? INBOX)%N then reply st NO CNone else
+  match lookup box (st_boxes st) with
+  | None => reply st NO CNonexistent
+  | Some _ => after_names st (del_box box (st_boxes st))
+  end.
+
+(* RENAME carries messages, UIDs, UIDVALIDITY, read-only bit; renaming INBOX (dict)
+   moves its messages and leaves a new empty INBOX; maildir refuses that *)
+Definition do_rename (st : state) (from to uidv : N) : state * out :=
+  if (to =? INBOX)%N then reply st NO CNone else
+  if (from =? INBOX)%N && match st_bk st with Maildir => true | Dict => false end
+  then reply st NO CCannot else
+  match lookup from (st_boxes st) with
+  | None => reply st NO CNonexistent
+  | Some b =>
+    match lookup to (st_boxes st) with
+    | Some _ => reply st NO CAlreadyExists
+    | None =>
+      if (from =? INBOX)%N then
+        let bs' := set_box INBOX (new_box Dict uidv) (st_boxes st) ++ [(to, b)] in
+        (* the session that renames its own selected INBOX is not told: its selection is
+           found stale by its next command *)
+        if inbox_selected (st_sel st)
+        then (set_sel st bs' (unname (st_sel st)), mkOut OK CNone [])
+        else after_names st bs'
+      else after_names st (del_box from (st_boxes st) ++ [(to, b)])
     end
   end.
 
 Definition step (st : state) (c : cmd) : state * out :=
   match c with
   | CSelect box ro => do_select st box ro
-  | CAppend box fl date cid => do_append st box fl date cid
+  | CAppend box msgs => do_append st box msgs
   | CStore uid ss op silent fl => do_store st uid ss op silent fl
   | CExpunge us => do_expunge st us
   | CCopy uid ss dest => do_copy st uid ss dest
   | CMove uid ss dest => do_move st uid ss dest
   | CFetch uid ss attrs => do_fetch st uid ss attrs
   | CClose => do_close st
+  | CNoop => do_noop st false
+  | CCheck => do_noop st true
+  | CStatus box => do_status st box
+  | CSearch uid keys => do_search st uid keys
+  | CCreate box uidv => do_create st box uidv
+  | CDelete box => do_delete st box
+  | CRename from to uidv => do_rename st from to uidv
   end.
 
 Fixpoint run (st : state) (prog : list cmd) : state * list out :=
@@ -516,4 +768,78 @@ Fixpoint run (st : state) (prog : list cmd) : state * list out :=
   | [] => (st, [])
   | c :: r => let '(st1, o) := step st c in
               let '(st2, os) := run st1 r in (st2, o :: os)
+  end.
+
+(* ------------------------------------------- another connection in between *)
+(* the other connection's read-write SELECT takes the stored \Recent marks *)
+Definition claim_all (b : mbox) : mbox := set_msgs b (map clear_recent (b_msgs b)).
+
+(* dict: a message that disappears stays in the caches that hold it with the flags
+   it had last (the cache entry IS that object) *)
+Definition refresh_cached (b : mbox) (v : list msg) : list msg :=
+  map (fun c => match find_msg (m_uid c) (b_msgs b) with
+                | Some m => if mem FDeleted (m_flags m) then set_flags c (m_flags m) else c
+                | None => c
+                end) v.
+
+Definition ext_apply (st : state) (e : ext) : state :=
+  let bk := st_bk st in
+  match e with
+  | XStore box uids op fl =>
+    match lookup box (st_boxes st) with
+    | None => st
+    | Some b =>
+      if b_ro b then st else
+      let pf := perm_intersect (perm_defined (b_perm b)) fl in
+      let upd m := if memN (m_uid m) uids
+                   then set_flags m (storable bk (b_perm b) (op_apply op (m_flags m) pf)) else m in
+      set_sel st (set_box box (set_msgs b (map upd (map clear_recent (b_msgs b)))) (st_boxes st))
+              (st_sel st)
+    end
+  | XExpunge box =>
+    match lookup box (st_boxes st) with
+    | None => st
+    | Some b =>
+      if b_ro b then st else
+      let b1 := claim_all b in
+      let b2 := set_msgs b1 (filter (fun m => negb (mem FDeleted (m_flags m))) (b_msgs b1)) in
+      let sl := match bk, st_sel st with
+                | Dict, Some s =>
+                  if (s_box s =? box)%N
+                  then Some (mkSel (s_box s) (s_ro s) (s_perm s) (refresh_cached b (s_view s))
+                                   (s_recent s))
+                  else Some s
+                | _, sl => sl
+                end in
+      set_sel st (set_box box b2 (st_boxes st)) sl
+    end
+  | XAppend box fl date cid =>
+    match lookup box (st_boxes st) with
+    | None => st
+    | Some b =>
+      if b_ro b then st else
+      (* dict: any_selected finds the session's read-write selection of this mailbox;
+         a maildir session only knows the selections of its own connection *)
+      let ds := match bk with Dict => dest_selected st box | Maildir => false end in
+      let '(b', u) := mb_add b (storable bk (b_perm b) (diff fl [FRecent])) date cid (negb ds) in
+      let sl := match st_sel st with
+                | Some s => if ds then Some (mkSel (s_box s) (s_ro s) (s_perm s) (s_view s)
+                                                   (add_recent u (s_recent s)))
+                            else Some s
+                | None => None
+                end in
+      set_sel st (set_box box b' (st_boxes st)) sl
+    end
+  end.
+
+Definition step_l (st : state) (l : label) : state * option out :=
+  match l with
+  | LCmd c => let '(st', o) := step st c in (st', Some o)
+  | LExt e => (ext_apply st e, None)
+  end.
+Fixpoint run_l (st : state) (prog : list label) : state * list (option out) :=
+  match prog with
+  | [] => (st, [])
+  | l :: r => let '(st1, o) := step_l st l in
+              let '(st2, os) := run_l st1 r in (st2, o :: os)
   end.
